@@ -266,12 +266,19 @@ func genStream(rng *rand.Rand, p E2E, id uint64, pushes []int) *StreamPlan {
 // DefaultPushes is the set of push counts registered on every e2e server.
 var DefaultPushes = []int{0, 1, 5}
 
-func (c *e2eConn) doOp(p E2E, o *Op) {
+// reuse, when not nil, is the caller goroutine's own reply variable: it is
+// decoded into by every plain call of that caller while the values of the
+// earlier calls are kept.
+func (c *e2eConn) doOp(p E2E, o *Op, reuse svc.Box) {
 	codec := p.Cfg.Codec
 	method := rig.Method(codec, o.Shape)
 	switch o.Kind {
 	case KCall, KFail:
-		o.Rec = rig.Do(c.caller, o.Form, codec, method, o.Spec, o.BufCap, nil)
+		var opt *rig.DoOpt
+		if reuse != nil {
+			opt = &rig.DoOpt{Out: reuse}
+		}
+		o.Rec = rig.Do(c.caller, o.Form, codec, method, o.Spec, o.BufCap, opt)
 	case KNoMethod:
 		o.Rec = rig.Do(c.caller, o.Form, codec, "S.Nope", o.Spec, o.BufCap, nil)
 	case KUndecodable:
@@ -342,9 +349,16 @@ func (sp *StreamPlan) run(c *e2eConn, p E2E, retain bool) {
 		return
 	}
 	nread := 0
+	var reuse svc.Box
+	if retain && sp.ID%2 == 1 {
+		reuse = svc.NewBox(codec) // one message variable for every read, earlier values kept
+	}
 	read := func(what string) bool {
 		sp.setStage("read " + what)
-		box := svc.NewBox(codec)
+		box := reuse
+		if box == nil {
+			box = svc.NewBox(codec)
+		}
 		// a caller-supplied buffer of varying capacity, canary-filled
 		nread++
 		var ubuf []byte
@@ -573,8 +587,12 @@ func RunE2EOn(env Env, p E2E, start func(cfg rig.Config, seed int64) (*rig.Rig, 
 				wg.Add(1)
 				go func() {
 					defer wg.Done()
+					var reuse svc.Box
+					if p.Profile == "retain" && k%2 == 1 {
+						reuse = svc.NewBox(p.Cfg.Codec)
+					}
 					for _, o := range c.ops[k] {
-						c.doOp(p, o)
+						c.doOp(p, o, reuse)
 						atomic.StoreInt32(&o.done, 1)
 					}
 				}()
